@@ -142,19 +142,23 @@ BLOCKS = {
 }
 
 
-def composed(kinds):
+def composed(kinds, adjacent=False):
+    """adjacent: every block is followed by the plain text `y}} `, which completes `{{y}}` (or `{{?y}}`, `{{>y}}`...)
+    if the text a block emitted were re-scanned"""
     nodes, slots = [], []
     for i, k in enumerate(kinds):
         nd, sl = BLOCKS[k](i)
-        nodes += nd + [("text", " %d " % i)]
+        nodes += nd + [("text", "y}} " if adjacent else " %d " % i)]
         slots += sl
+    if adjacent:
+        slots.append("y")
     incl = {"inner": [("text", "("), ("opt", "x0"), ("text", ")")]} if "include" in kinds else {}
-    return ("seq:" + "+".join(kinds), nodes, incl, slots, "composed")
+    return (("adj:" if adjacent else "seq:") + "+".join(kinds), nodes, incl, slots, "composed")
 
 
-def composed_names(k):
+def composed_names(k, prefix="seq:"):
     import itertools
-    return ["seq:" + "+".join(ks) for ks in itertools.product(sorted(BLOCKS), repeat=k)]
+    return [prefix + "+".join(ks) for ks in itertools.product(sorted(BLOCKS), repeat=k)]
 
 
 CAT = catalogue()
@@ -162,8 +166,8 @@ NAMES = [t[0] for t in CAT]
 
 
 def lookup(tname):
-    if tname.startswith("seq:"):
-        return composed(tname[4:].split("+"))
+    if tname.startswith("seq:") or tname.startswith("adj:"):
+        return composed(tname[4:].split("+"), adjacent=tname.startswith("adj:"))
     return [t for t in CAT if t[0] == tname][0]
 
 
@@ -231,10 +235,9 @@ def render_check(tname, L, mode):
             wset = [w for w in prot.warnings if w.startswith("Unbound variable")]
             c.check("C12.a-warn", sorted(wset) == sorted(w_ref), {"what": "missing-variable warnings differ", "got": prot.warnings, "want": w_ref, **info})
         else:
-            regions = [("K-C12-1", b_and(delim, construct == "loop_item")),
-                       ("K-C12-2", b_and(delim, construct in ("filtered", "optional", "defaulted"))),
-                       ("K-C12-3", b_and(delim, construct == "include"))]
-            c.check("C12.b", same, {"what": "text that entered through a bound value was re-interpreted as template syntax (or otherwise altered)", **info}, regions=regions)
+            # (K-C12-1..3 - re-interpretation through loop items, filtered/optional/defaulted values and includes -
+            # were repaired in /repo 67d2cc2: no region is excused any more)
+            c.check("C12.b", same, {"what": "text that entered through a bound value was re-interpreted as template syntax (or otherwise altered)", **info})
     return h
 
 
@@ -295,7 +298,8 @@ HARNESSES = {
                      + ([{"tname": t, "L": 1, "mode": "plain"} for t in composed_names(3) if "ghost" not in t and "default" not in t] if tier != "quick" else []),
                      "clauses": ["C12.a", "C12.a-warn"]},
     "opacity": {"make": render_check, "witness_every": 13,
-                "jobs": lambda tier: [{"tname": t, "L": 3 if tier == "quick" else 4, "mode": "opaque"} for t in NAMES],
+                "jobs": lambda tier: [{"tname": t, "L": 3 if tier == "quick" else 4, "mode": "opaque"} for t in NAMES]
+                + [{"tname": t, "L": 3, "mode": "opaque"} for t in composed_names(2, "adj:") if "ghost" not in t],
                 "clauses": ["C12.b"]},
     "strict": {"make": strict_mode, "witness_every": 1, "jobs": lambda tier: [{}], "clauses": ["C12.a-strict"]},
     "selftest": {"make": instrumentation_selftest, "witness_every": 0, "jobs": lambda tier: [{}], "clauses": ["C12.selftest"]},
@@ -304,12 +308,12 @@ HARNESSES = {
 META = {
     "manifest": {
         "text": "Bounded symbolic model checking of the implementation: ribosome.py is loaded from its current source through a purely syntactic transformer (str(), .replace, .join, `in`, subscripts, .get and f-strings rerouted to helpers that keep symbolic strings symbolic; `re` replaced by a symbolic backtracking matcher driven by CPython's own regex parse) and Ribosome.synthesize runs on a catalogue of templates over every documented construct with the BOUND VALUES, LOOP ITEMS as symbolic strings (z3 code points over the alphabet `{ } | # / > ? . a b space`). The rendered cells are compared, as a z3 query, with a reference that expands the template's AST once, left to right, emitting values verbatim: first with delimiter-free values (clause a), then with unconstrained values (opacity, clause b). The instrumented copy is differentially tested against the real module, and the symbolic regex against `re`, in the same run.",
-        "note": "Trusted: z3, CPython, SymX (SStr, symbolic regex, the syntactic transformer - validated per run). Value length <= 2-3 (quick) / 3-4 (thorough) cells, <= 2 symbolic strings per template, 15 templates; filters title/json/repr/length and dict items are exercised on concrete values only. Opacity FAILS by design of the multi-pass renderer: recorded as known findings K-C12-1..3, keyed by the construct through which the value entered; values entering through a plain {{name}} are substituted by the last pass and must stay opaque (any violation there is reported).",
+        "note": "Trusted: z3, CPython, SymX (SStr, symbolic regex, the syntactic transformer - validated per run). Value length <= 2-3 (quick) / 3-4 (thorough) cells, <= 2 symbolic strings per template, 15 templates; filters title/json/repr/length and dict items are exercised on concrete values only. Opacity used to fail through loop items, filtered/optional/defaulted values and includes (K-C12-1..3); repaired in /repo 67d2cc2 (value parking), so clause b is asserted for every entry construct with no excused region.",
         "technique": "symbolic-string execution of an instrumented import of ribosome.py with a symbolic regex engine; z3 cell-wise equality against a single-pass reference renderer over the generator's AST",
     },
     "files": ["operon_ai/organelles/ribosome.py"],
-    "bounds": {"quick": "22 templates (7 of them place a value next to plain text that would complete a construct if the value were re-scanned); delimiter-free values up to 2 cells, opacity with values up to 3 cells over an 11-character alphabet; lists of 0-2 items", "thorough": "values up to 3 / 4 cells"},
-    "outside": ["templates outside the catalogue (nested blocks, >2 symbolic values)", "values longer than the bound or outside the alphabet", "dict-valued loop items with symbolic keys", "filters other than upper/lower/trim on symbolic values"],
+    "bounds": {"quick": "22 catalogue templates (7 of them place a value next to plain text that would complete a construct if the value were re-scanned) + all 81 ordered pairs of 9 block kinds (plain values, 1 cell) + 64 ordered pairs with the completing text `y}} ` after every block (opacity, values up to 3 cells); delimiter-free values up to 2 cells, opacity with values up to 3 cells over an 11-character alphabet; lists of 0-2 items (and [a, b, a])", "thorough": "values up to 3 / 4 cells; ordered triples of 7 block kinds (plain values)"},
+    "outside": ["templates outside the catalogue and the composed sequences (nested blocks, blocks inside loop bodies)", "values longer than the bound or outside the alphabet", "dict-valued loop items with symbolic keys", "filters other than upper/lower/trim on symbolic values"],
     "float_argument": "none",
     "assumptions": ["instrumented import (syntactic rewrite of C-level string operations)", "symbolic regex engine self-tested against re on the module's patterns"],
     "must_cover": [],
